@@ -274,6 +274,8 @@ func alphabet() []op {
 		}
 		// a shape that differs from [3] only by a trailing dimension of length 1 (still a different shape)
 		out = append(out, op{Kind: "Create", Path: p, Shape: []int{3, 1}}, op{Kind: "Write", Path: p, Shape: []int{3, 1}, Src: "contiguous"})
+		// the transposed shape of [2,3]: same rank, same element count, different extents
+		out = append(out, op{Kind: "Create", Path: p, Shape: []int{3, 2}}, op{Kind: "Write", Path: p, Shape: []int{3, 2}, Src: "contiguous"})
 		// sub-blocks
 		out = append(out, op{Kind: "WriteSlice", Path: p, Shape: []int{2}, Src: "stepped", Loc: []int{1}})
 		out = append(out, op{Kind: "WriteSlice", Path: p, Shape: []int{1, 2}, Src: "column", Loc: []int{1, 1}})
